@@ -488,7 +488,7 @@ PROPS = {
                 inv=["TypeOK"], prop=["C01_NoOverdraftConfirmed", "C01_OnlyTipsDropped", "C03_Reproposable"],
                 gens=[("single", 1.0)], fams=["truncation", "concurrent", "weights"], mc="single"),
     "C02": dict(strict=["Wedged"], inv=["C02_ModuloF10"], prop=[],
-                gens=[("two", 1.0)], fams=["doublespend"], mc="two"),
+                gens=[("two", 0.5), ("twosingle", 0.3), ("drain", 0.2)], fams=["doublespend", "truncation"], mc="two"),
     "C03": dict(strict=["ProposePre", "ProposeCommit", "DeliverPre", "DeliverCommit", "TickPop", "Wedged"],
                 inv=["C03_UniqueTrx", "C03_IndexExact", "TypeOK"], prop=["C03_Reproposable"],
                 gens=[("single", 0.7), ("twosingle", 0.3)], fams=["concurrent", "truncation"], mc="single"),
